@@ -14,7 +14,7 @@ def scenario(rng, i):
     steps = []
     for d in rng.sample(gen.all_dirs(cur), min(len(gen.all_dirs(cur)), rng.choice([0, 0, 1, 2]))):
         steps.append({"op": "create", "root": d, "fmts": gen.gen_fmts(rng)})
-    first = {"op": "create", "fmts": gen.gen_fmts(rng)}
+    first = {"op": "create", "fmts": gen.gen_fmts(rng), **({"n": True} if i % 7 == 3 else {})}
     if pats and rng.random() < 0.7:
         first["i"] = rng.sample(pats, rng.choice([1, 2]))
     steps.append(first)
@@ -31,7 +31,8 @@ def scenario(rng, i):
                 st["keep_mtime"] = True
         steps.append(st)
         cur = world.tree_apply(cur, st)
-    order = [{"op": "verify"}, {"op": "diff"}, {"op": "create", "fmts": gen.gen_fmts(rng), **({"n": True} if rng.random() < 0.3 else {})}]
+    order = [{"op": "verify"}, {"op": "diff"}, {"op": "create", "fmts": gen.gen_fmts(rng), **({"n": True} if rng.random() < 0.3 else {}),
+                                                  **({"dr": True} if i % 7 in (3, 5) else {})}]
     rng.shuffle(order)
     # create adds a generation, so verify / diff come first in most scenarios
     if rng.random() < 0.7:
@@ -41,8 +42,15 @@ def scenario(rng, i):
 
 
 RULE = ("sealed trees (flat / nested, 1-3 generations, with and without ignore patterns) followed by 0-3 mutations (same-size bit flip with the mtime "
-        "kept, rewrite, append, delete file / empty dir, add file, touch) and then verify, diff, create; oracle: exit code and named paths derived from "
+        "kept, rewrite, append, delete file / empty dir, add file, touch) and then verify, diff, create (two scenarios in seven with -dr, one of them on a history sealed with -n); oracle: exit code and named paths derived from "
         "the generations read back independently. Non-trivial: at least one mutation step.")
-check, replay = make("C03", oracles.oracle_c03, scenario, 70, 2000, RULE,
+# recorded inputs that run first on every run: a folder recorded without directory hashes (-n) vanishes (renamed) and create -dr
+# has new paths to compare with -- the rename detection must not end in an internal error (it did: AttributeError on None)
+CORPUS = [{"tree": {"D": {"d": {"a.txt": {"f": "414141"}}}, "z.txt": {"f": "5a5a"}},
+           "steps": [{"op": "create", "fmts": ["md5"], "n": True}, {"op": "rename", "path": "D", "to": "E"}, {"op": "create", "fmts": ["md5"], "n": True, "dr": True}]},
+          {"tree": {"D": {"d": {}}, "z.txt": {"f": "5a5a"}},
+           "steps": [{"op": "create", "fmts": ["xxh64"], "n": True}, {"op": "delete", "path": "D"}, {"op": "add", "path": "new.bin", "data": "0102"},
+                     {"op": "create", "fmts": ["xxh64"], "dr": True}, {"op": "verify"}]}]
+check, replay = make("C03", oracles.oracle_c03, scenario, 70, 2000, RULE, corpus=CORPUS,
                      corpus_defects=[defects.d15_c03_verify_without_files, defects.d05_c10_line_separator_in_name],
                      nontrivial=lambda scn, obs: any(s["op"] in ("set", "add", "delete") for s in scn["steps"]))
